@@ -813,8 +813,12 @@ static int _fetch_and_process_packet(OggVorbis_File *vf,
                1) our decoding just traversed a bitstream boundary
                2) another stream is multiplexed into this logical section */
 
-            if(ogg_page_bos(&og)){
-              /* boundary case */
+            if(ogg_page_bos(&og) &&
+               !(vf->seekable &&
+                 ret<vf->offsets[vf->current_link+1])){
+              /* boundary case (a BOS page inside the current link of
+                 a seekable file belongs to another stream of the same
+                 BOS group: possibility #2) */
               if(!spanp){
                 /* leave the page for whoever reads on across the
                    boundary */
